@@ -384,6 +384,8 @@ class Executor:
             return Str(s)
         if t == "()":
             return UNIT
+        if t.startswith('b"'):
+            return Str(sym=I(-abs(hash(t)) % 1000003 - 5000))  # byte-string constant (format templates): opaque
         if t.startswith("fnitem "):
             return FnItem(t[7:])
         if t.startswith("ZeroSized: "):
